@@ -31,47 +31,90 @@ FULL_GROUP_MUTANTS = 6
 
 # --------------------------------------------------------------------------- cases
 
-def make_line(trees, queries, rng):
-    """one case line: script | root slots | queries | serialised trees"""
+def make_line(roots, queries, rng, equivalences=0):
+    """one case line: script | root slots | queries | serialised trees.
+    roots: (role, description, tree, spec); spec None = build the tree as fresh objects;
+    spec (k, path) = the object already built at that path inside root k (a parented sub-object)."""
     b = ScriptBuilder(check=False)
-    slots = [eg.emit(b, t, rng) for t in trees]
+    slots, recs = [], []
+    for role, desc, t, spec in roots:
+        if spec is None:
+            rec = {}
+            slots.append(eg.emit(b, t, rng, rec=rec))
+            recs.append(rec)
+        else:
+            slots.append(recs[spec[0]][spec[1]][1])
+            recs.append({})
+    # variable equivalences on the exact copy (root 1): equals must not look at them
+    if equivalences and len(recs) > 1:
+        vs = sorted(set(sl for pth, (t, sl) in recs[1].items() if t[0] == 'V' and len(pth) >= 2 and pth[-2] == 'var'))
+        for _ in range(equivalences):
+            if len(vs) >= 2:
+                v1, v2 = rng.sample(vs, 2)
+                b.cmd("addequivalence", v1, v2)
     return "%s|%s|%s|%s" % (b.text(), " ".join(map(str, slots)), " ".join("%d,%d" % q for q in queries),
-                            ";".join(eg.ser(t) for t in trees))
+                            ";".join(eg.ser(r[2]) for r in roots))
+
+
+def totuple(x):
+    return tuple(totuple(y) for y in x) if isinstance(x, list) else x
+
+
+def corpus_case(n, trees):
+    """a hand-written group of trees (corpus/C10.json): every ordered pair is asked"""
+    roots = [("corpus", "corpus[%d][%d]" % (n, k), totuple(t), None) for k, t in enumerate(trees)]
+    queries = [(i, j) for i in range(len(roots)) for j in range(len(roots))]
+    return {"seed": "corpus-%d" % n, "kind": "corpus", "roots": roots, "ng": len(roots), "queries": queries,
+            "line": make_line(roots, queries, random.Random(n))}
 
 
 def build_case(seed, mutcap):
-    """roots: [0] original, [1] exact copy, [2] shuffled copy, then others / mutants.
+    """roots: [0] original, [1] exact copy (with variable equivalences added), [2] shuffled copy, then mutants / others.
     The first `ng` roots form the full group: every ordered pair (and the diagonal) is queried."""
     rng = random.Random(seed)
     g = eg.Gen(rng, tiny=0.02 if rng.random() < 0.85 else 0.3)
     kind = rng.choice(KINDS)
     o = g.entity(kind)
-    roots = [("orig", "", o), ("copy", "", o), ("shuffle", "", g.shuffled(o))]
+    roots = [("orig", "", o, None), ("copy", "", o, None), ("shuffle", "", g.shuffled(o), None)]
     muts = list(g.mutations(o))
     rng.shuffle(muts)
     muts = muts[:mutcap]
     inner = muts[:FULL_GROUP_MUTANTS]
     for d, t in inner:
-        roots.append(("mut", d, t))
+        roots.append(("mut", d, t, None))
     if inner:
         d, t = inner[0]
-        roots.append(("mutshuffle", d, g.shuffled(t)))
+        roots.append(("mutshuffle", d, g.shuffled(t), None))
         # a second mutation on top of the first: two steps away from the original
         m2 = list(g.mutations(t))
         if m2:
             d2, t2 = rng.choice(m2)
-            roots.append(("mut2", d + " ; " + d2, t2))
-    roots.append(("other", "", g.entity(kind)))
-    roots.append(("other", "", g.entity(rng.choice(KINDS)) if rng.random() < 0.5 else g.entity(kind)))
+            roots.append(("mut2", d + " ; " + d2, t2, None))
+    roots.append(("other", "", g.entity(kind), None))
+    roots.append(("other", "", g.entity(rng.choice(KINDS)) if rng.random() < 0.5 else g.entity(kind), None))
     ng = len(roots)
     for d, t in muts[FULL_GROUP_MUTANTS:]:
-        roots.append(("mut", d, t))
+        roots.append(("mut", d, t, None))
     queries = [(i, j) for i in range(ng) for j in range(ng)]
     for k in range(ng, len(roots)):
         queries += [(0, k), (k, 0), (2, k), (k, 2), (k, k)]
-    trees = [r[2] for r in roots]
+    # a parented sub-object of the original against a free-standing build of the same subtree
+    rec = {}
+    eg.emit(ScriptBuilder(check=False), o, random.Random(0), rec=rec)
+    def stable(p):     # built on every emission (shared reset variables and units set by name are not)
+        return p != () and "rvar" not in p and "rtest" not in p and all(
+            i + 1 < len(p) and isinstance(p[i + 1], int) for i in range(len(p)) if p[i] == "units")
+    paths = sorted(p for p in rec if stable(p))
+    if paths:
+        pth = rng.choice(paths)
+        st = eg.subtree(o, pth)
+        n = len(roots)
+        roots.append(("sub", "/".join(map(str, pth)), st, (0, pth)))
+        roots.append(("subcopy", "/".join(map(str, pth)), st, None))
+        queries += [(n, n + 1), (n + 1, n), (n, n), (n + 1, n + 1)]
+    neq = rng.choice([0, 0, 1, 3])
     return {"seed": seed, "kind": kind, "roots": roots, "ng": ng, "queries": queries,
-            "line": make_line(trees, queries, rng)}
+            "line": make_line(roots, queries, rng, neq)}
 
 
 # --------------------------------------------------------------------------- known-finding matchers (over the case)
@@ -106,11 +149,14 @@ def eval_case(case, il, ml, out):
         out["bad"].append({"what": what, "seed": case["seed"], "involved": involved, "extra": extra})
 
     parts = il.split(" ")
-    if len(parts) != 2 or len(parts[0]) != len(queries) or set(parts[0]) - set("01"):
+    if len(parts) != 3 or len(parts[0]) != len(queries) or set(parts[0]) - set("01"):
         problem("implementation did not answer: %s" % il[:200], [])
         return
     bits = parts[0]
     hashes = parts[1].split(",")
+    if "1" in parts[2]:
+        k = parts[2].index("1")
+        problem("ORACLE x.equals(nullptr) is true (root %d)" % k, [k])
     for k, t in enumerate(trees):
         if k >= len(hashes) or hashes[k] != eg.fnv1a(eg.ser(t)):
             problem("the objects built through the API are not the intended tree (root %d, read back through getters)" % k, [k])
@@ -120,15 +166,18 @@ def eval_case(case, il, ml, out):
         problem("model did not answer: %s" % ml[:200], [])
         return
     e = {}
+    corr = {}         # query -> does the unrepaired model give the implementation's answer (impl != model)
     deviant = {}      # query -> known finding id that explains impl != ideal
     for n, q in enumerate(queries):
         e[q] = bits[n] == "1"
         a, b = trees[q[0]], trees[q[1]]
         if bits[n] != now[n]:
-            note = " (the answer is that of the unrepaired ComponentEntity::doEquals: fix C10-component-matching not applied)" \
-                if bits[n] == pinned[n] else ""
+            note = " (hint: the model of the unrepaired ComponentEntity::doEquals gives the implementation's answer here; is " \
+                   "fixes/C10-component-matching.diff applied to this tree?)" if bits[n] == pinned[n] else ""
             problem("correspondence: equals(%s, %s) impl=%s model=%s%s" % (q[0], q[1], bits[n], now[n], note), [q[0], q[1]],
-                    {"query": q, "impl": bits[n], "now": now[n], "pinned": pinned[n], "vc": vc[n], "ideal": ideal[n]})
+                    {"query": q, "impl": bits[n], "now": now[n], "pinned": pinned[n], "vc": vc[n], "ideal": ideal[n],
+                     "class": "corr-pinned" if bits[n] == pinned[n] else "corr-other"})
+            corr[q] = bits[n] == pinned[n]
             continue
         if bits[n] != ideal[n]:
             if now[n] != vc[n] and varcount_class(a, b):
@@ -151,16 +200,27 @@ def eval_case(case, il, ml, out):
                                          "descs": [roots[k][1] for k in involved]})
                 out["kf_count"][i] = out["kf_count"].get(i, 0) + 1
         else:
-            problem("ORACLE " + what, involved)
+            dq = [corr[q] for q in qs if q in corr]
+            problem("ORACLE " + what, involved,
+                    {"class": "oracle-no-deviation" if not dq else ("oracle-on-pinned-deviation" if all(dq) else "oracle-on-other-deviation")})
 
     asked = set(queries)
     # reflexivity: same object, exact copy
     for k in range(len(roots)):
         if (k, k) in asked and not e[(k, k)]:
             fails("reflexivity: x.equals(x) is false (root %d)" % k, [(k, k)], [k])
-    for q in ((0, 1), (1, 0)):
+    std = len(roots) > 2 and roots[1][0] == "copy" and roots[2][0] == "shuffle"     # (corpus cases are plain groups)
+    for q in ((0, 1), (1, 0)) if std else ():
         if not e[q]:
             fails("an exact copy is not equal (%d,%d)" % q, [q], [0, 1])
+    # a sub-object that has a parent (and whatever else hangs on it) equals a free-standing build of the same subtree
+    for k in range(len(roots)):
+        if roots[k][0] == "sub":
+            out["subpairs"][roots[k][2][0]] = out["subpairs"].get(roots[k][2][0], 0) + 1
+            for q in ((k, k + 1), (k + 1, k)):
+                if not e[q]:
+                    fails("parent: the sub-object %s of the original is not equal to a free-standing copy of itself %s" % (roots[k][1], q),
+                          [q], [0, k, k + 1])
     # symmetry
     for (i, j) in queries:
         if i < j and (j, i) in asked and e[(i, j)] != e[(j, i)]:
@@ -176,10 +236,10 @@ def eval_case(case, il, ml, out):
                             fails("transitivity: equals(%d,%d) and equals(%d,%d) but not equals(%d,%d)" % (i, j, j, k, i, k),
                                   [(i, j), (j, k), (i, k)], [i, j, k])
     # permutation invariance: the shuffled copy is equal and answers every question like the original
-    for q in ((0, 2), (2, 0)):
+    for q in ((0, 2), (2, 0)) if std else ():
         if not e[q]:
             fails("permutation: the child-order permutation of x is not equal to x (%d,%d)" % q, [q], [0, 2])
-    for k in range(3, len(roots)):
+    for k in range(3, len(roots)) if std else ():
         for qa, qb in (((0, k), (2, k)), ((k, 0), (k, 2))):
             if qa in asked and qb in asked and e[qa] != e[qb]:
                 fails("permutation: equals%s=%d but with the shuffled copy equals%s=%d" % (qa, e[qa], qb, e[qb]), [qa, qb], [0, 2, k])
@@ -216,7 +276,7 @@ def mutkind(d):
 
 def run_shard(args):
     drv, mdl, workdir, shard, seeds, mutcap = args
-    cases = [build_case(s, mutcap) for s in seeds]
+    cases = [corpus_case(*s) if isinstance(s, tuple) else build_case(s, mutcap) for s in seeds]
     cf = os.path.join(workdir, "shard%03d.cases" % shard)
     with open(cf, "w") as f:
         for c in cases:
@@ -226,7 +286,7 @@ def run_shard(args):
     il = p1.communicate()[0].decode("utf-8", "replace").split("\n")
     ml = p2.communicate()[0].decode("utf-8", "replace").split("\n")
     out = {"bad": [], "kf": {}, "kf_count": {}, "pairs_true": 0, "pairs_false": 0, "triples": 0, "nontrivial": 0,
-           "sizes": [0] * 10, "kinds": {}, "mut_kinds": {}, "evaluations": 0, "cases": len(cases), "roothashes": [],
+           "sizes": [0] * 10, "kinds": {}, "mut_kinds": {}, "subpairs": {}, "evaluations": 0, "cases": len(cases), "roothashes": [],
            "samples": []}
     for k, c in enumerate(cases):
         a = il[k] if k < len(il) else "<missing>"
@@ -245,12 +305,21 @@ def run_shard(args):
 
 def minimal(case, bad, il, ml):
     """replay content: the case restricted to the roots involved in the problem"""
-    inv = bad["involved"] or list(range(min(3, len(case["roots"]))))
-    trees = [case["roots"][k][2] for k in inv]
+    inv = list(bad["involved"]) or list(range(min(3, len(case["roots"]))))
+    for k in list(inv):
+        sp = case["roots"][k][3]
+        if sp is not None and sp[0] not in inv:
+            inv.append(sp[0])
+    inv.sort()
+    pos = {k: n for n, k in enumerate(inv)}
+    roots = []
+    for k in inv:
+        role, desc, t, sp = case["roots"][k]
+        roots.append((role, desc, t, None if sp is None else (pos[sp[0]], sp[1])))
     qs = [(i, j) for i in range(len(inv)) for j in range(len(inv))]
-    return {"what": bad["what"], "seed": case["seed"], "roots": [list(case["roots"][k][:2]) for k in inv],
-            "line": make_line(trees, qs, random.Random(0)), "queries": qs, "extra": bad.get("extra"),
-            "trees": [eg.ser(t) for t in trees]}
+    return {"what": bad["what"], "seed": case["seed"], "roots": [[k] + list(case["roots"][k][:2]) for k in inv],
+            "line": make_line(roots, qs, random.Random(0)), "queries": qs, "extra": bad.get("extra"),
+            "trees": [eg.ser(r[2]) for r in roots]}
 
 
 # --------------------------------------------------------------------------- run
@@ -278,25 +347,26 @@ def run(ctx):
     ]
     drv, mdl = drivers()
     ncases = 2000 if quick else 50000
-    mutcap = 24 if quick else 16
+    mutcap = 30 if quick else 24
     seeds = [ctx.rng.getrandbits(48) for _ in range(ncases)]
-    corpus = os.path.join(vf.ROOT, "corpus", "C10.seeds")
-    if os.path.exists(corpus):
-        seeds = [int(x) for x in open(corpus).read().split()] + seeds
+    corpus = os.path.join(vf.ROOT, "corpus", "C10.json")
+    if os.path.exists(corpus):      # hand-written groups that once failed; always run first
+        seeds = [(n, trees) for n, trees in enumerate(json.load(open(corpus))["groups"])] + seeds
     nsh = vf.NCPU * (2 if quick else 8)
     args = [(drv, mdl, ctx.workdir, k, seeds[k::nsh], mutcap) for k in range(nsh)]
     with multiprocessing.Pool(vf.NCPU) as pool:
         outs = pool.map(run_shard, args, chunksize=1)
     tot = {"pairs_true": 0, "pairs_false": 0, "triples": 0, "nontrivial": 0, "evaluations": 0, "cases": 0}
-    sizes, kinds, mk, kfc = [0] * 10, {}, {}, {}
+    sizes, kinds, mk, kfc, subp = [0] * 10, {}, {}, {}, {}
     seen_roots = set()
     nbad = 0
+    allbad = []
     for o in outs:
         for k in tot:
             tot[k] += o[k]
         for i in range(10):
             sizes[i] += o["sizes"][i]
-        for d, s in ((kinds, o["kinds"]), (mk, o["mut_kinds"]), (kfc, o["kf_count"])):
+        for d, s in ((kinds, o["kinds"]), (mk, o["mut_kinds"]), (kfc, o["kf_count"]), (subp, o["subpairs"])):
             for k, v in s.items():
                 d[k] = d.get(k, 0) + v
         seen_roots.update(o["roothashes"])
@@ -305,12 +375,24 @@ def run(ctx):
             if not ctx.known_finding(fid, text) and nbad < 5:
                 nbad += 1
                 ctx.violation("C10 finding %s is not listed: %s" % (fid, text), "kf_%d.json" % nbad, ex)
-        for bad in o["bad"]:
-            if nbad < 5:
-                nbad += 1
-                ctx.violation("C10: " + bad["what"], "case_%d.json" % nbad, bad.get("case", bad))
+        allbad += o["bad"]
         if o["samples"]:
             ctx.cov["samples"] = o["samples"]
+    # the property failing on the real objects comes first, then disagreements with the model
+    allbad.sort(key=lambda b: (0 if b["what"].startswith("ORACLE") else 1, str(b["seed"])))
+    classes = {}
+    for bad in allbad:
+        c = (bad.get("extra") or {}).get("class", "other")
+        classes[c] = classes.get(c, 0) + 1
+    if allbad:
+        ctx.log("problems by class:", classes)
+        ctx.notes.append("problems by class: %s" % classes)
+    shown = [b for b in allbad if b["what"].startswith("ORACLE")][:3]
+    shown += [b for b in allbad if not b["what"].startswith("ORACLE")][:5 - len(shown)]
+    for bad in shown:
+        if nbad < 5:
+            nbad += 1
+            ctx.violation("C10: " + bad["what"], "case_%d.json" % nbad, bad.get("case", bad))
     ctx.cov["evaluations"] = tot["evaluations"]
     # distinct: the pairs are counted per case (distinct within the case by tree); cases with the same original are rare
     ctx.cov["distinct_nontrivial"] = int(tot["nontrivial"] * (len(seen_roots) / max(1, tot["cases"])))
@@ -326,6 +408,7 @@ def run(ctx):
         "root_kind": kinds, "original_size_in_entity_nodes_by_10": sizes, "mutation_kinds": dict(sorted(mk.items())),
         "pairs_equal": tot["pairs_true"], "pairs_unequal": tot["pairs_false"],
         "transitivity_triples_with_both_premises_true": tot["triples"],
+        "parented_sub_object_vs_free_standing_copy_by_kind": subp,
         "oracle_failures_attributed_to_known_findings": kfc}
     ctx.cov["traces_validated_against_impl"] = tot["evaluations"]
     ctx.log("cases=%d evaluations=%d equal=%d unequal=%d triples=%d kf=%s" %
@@ -341,8 +424,8 @@ def replay(ctx, path):
     print("roots  :", r.get("roots"))
     print("queries:", r.get("queries"))
     out = vf.sh([drv, "--dumps", cf])[1].strip()
-    print("impl   :", out.split("|")[0])
+    print("impl   :", out.split("|")[0], " equals(nullptr):", out.split("|")[-1] if out.count("|") >= 2 else "?")
     print("model  :", vf.sh([mdl, cf])[1].strip())
-    for k, d in enumerate(out.split("|", 1)[1].split(";") if "|" in out else []):
+    for k, d in enumerate(out.split("|")[1].split(";") if "|" in out else []):
         print("root %d (as read back from the objects): %s" % (k, d))
     print("script :", r["line"].split("|")[0])
